@@ -3,6 +3,7 @@ from engine import hx
 import diameter.message._base as base
 import diameter.message.commands as cmds
 from diameter.message import Message, MessageHeader, DefinedMessage, UndefinedMessage
+from diameter.message.commands import DeviceWatchdogRequest
 from diameter.message.avp import Avp, AvpGrouped
 from diameter.message.avp import avp as A
 from harness.C01 import ref_avp, be, be_at, pad4
@@ -176,6 +177,94 @@ def repro_typed_decode_forces_p():
     w = ref_header(1, 20, 0x80, 272, 4, 1, 2)
     m = Message.from_bytes(w)
     return m.header.command_flags != 0x80, "CCR header with flags 0x80 decodes with flags %#x (%s)" % (m.header.command_flags, type(m).__name__)
+
+
+def register_avp_late(vend: bool, ui: int, overwrite: bool) -> bool:
+    """
+    pre: 0 <= ui <= 2
+    post: _
+    """
+    hx.begin()
+    # an AVP definition registered (or replaced) at run time AFTER a message carrying that (code, vendor) has been decoded
+    # and searched once: the next decode must type it as the dictionary now says, and a path through it must reach its members.
+    # The inputs are choices; they are fixed first and the scenario runs natively - CrossHair switches memoisation
+    # (functools.lru_cache) off while tracing, which would hide exactly the staleness this obligation is about.
+    vend, overwrite = bool(hx.concretize(vend)), bool(hx.concretize(overwrite))
+    u1 = [0, 1, 0xffffffff][hx.concretize_range(ui, 0, 3)]
+    code = P["code"]
+    vendor = 99 if vend else 0
+    inputs = (vend, ui, overwrite)
+    from diameter.message.avp import dictionary as D
+    from diameter.message.avp import AvpOctetString
+    saved0 = D.AVP_DICTIONARY.get(code)
+    savedv = dict(D.AVP_VENDOR_DICTIONARY.get(99, {})) if 99 in D.AVP_VENDOR_DICTIONARY else None
+    try:
+        with hx.untraced():
+            child = ref_avp(0xf0000003, 0, 0, u1.to_bytes(4, "big"))
+            body = ref_avp(code, vendor, 0, child)
+            wire = ref_header(1, 20 + len(body), 0, 999, 0, 1, 2) + body
+            path = ((code, vendor), (0xf0000003, 0))
+            if overwrite:
+                A.register(code, "X-Early", AvpOctetString, vendor=(vendor or None))
+            m0 = Message.from_bytes(wire, plain_msg=True)
+            m0.find_avps(*path)
+            Avp.from_bytes(body)
+            try:
+                Avp.new(code, vendor)
+            except Exception:
+                pass
+            A.register(code, "X-Late-Group", AvpGrouped, vendor=(vendor or None))
+            m1 = Message.from_bytes(wire, plain_msg=True)
+            top = m1.avps[0]
+            made = Avp.new(code, vendor)
+            obs = (type(top).__name__, top.name, [a.payload for a in m1.find_avps(*path)], m1.as_bytes() == wire, type(made).__name__)
+            exp = ("AvpGrouped", "X-Late-Group", [child[8:]], True, "AvpGrouped")
+    except Exception as e:
+        return hx.fail(inputs, "raised %s: %s" % (type(e).__name__, str(e)[:60]))
+    finally:
+        if saved0 is None:
+            D.AVP_DICTIONARY.pop(code, None)
+        else:
+            D.AVP_DICTIONARY[code] = saved0
+        if savedv is None:
+            D.AVP_VENDOR_DICTIONARY.pop(99, None)
+        else:
+            D.AVP_VENDOR_DICTIONARY[99] = savedv
+    return hx.check(inputs, obs, exp, "an AVP definition registered after the first decode is used by the next decode, by Avp.new and by the search")
+
+
+def append_after_decode(kind: int, code: int, flags: int, pl: bytes) -> bool:
+    """
+    pre: 0 <= kind <= 3 and code == P["code"] and 0 <= flags <= 1 and len(pl) == 4
+    post: _
+    """
+    hx.begin()
+    # a decoded message is extended with one more AVP (append_avp) and encoded: header length and bytes must be those of the
+    # received AVPs followed by the new one - for a command without python class, and for a registered command decoded
+    # generically (plain_msg=True) or as its typed class
+    k = hx.concretize_range(kind, 0, 4)
+    inputs = (kind, code, flags, pl)
+    code = P["code"]               # concrete: the search keys its cache by the rendered "<code>-<vendor>"
+    try:
+        d = DeviceWatchdogRequest()
+        d.origin_host = b"h.r"
+        d.origin_realm = b"r"
+        base_wire = d.as_bytes()
+        if k == 0:
+            base_wire = base_wire[:5] + be(9999999, 3) + base_wire[8:]              # no python class for this command
+        m = Message.from_bytes(base_wire, plain_msg=(k in (0, 1)))
+        extra = Avp(code, 0, pl, flags=flags * 0x40)
+        if k == 3:
+            m.avps = [extra]                                                       # typed class: the setter replaces the list of custom AVPs
+        else:
+            m.append_avp(extra)
+        out = m.as_bytes()
+        found = [a.payload for a in m.find_avps((code, 0))]
+        obs = (out[20:], be_at(out, 1, 3), found)
+    except Exception as e:
+        return hx.fail(inputs, "raised %s: %s" % (type(e).__name__, str(e)[:60]))
+    tail = ref_avp(code, 0, flags * 0x40, pl)
+    return hx.check(inputs, obs, (base_wire[20:] + tail, len(base_wire) + len(tail), [pl]), "an AVP appended to a decoded message is encoded after the received ones and found by the search")
 
 
 def register_cmd(rbit: bool, hbh: int) -> bool:
@@ -415,6 +504,11 @@ def specs(tier, seed, carve):
     for i in range(2 if q else 5):
         code = rnd.choice([999, rnd.randrange(1000, 8388608), 280, 272, 8388734])
         out.append(dict(id="register_cmd/%d" % i, fn="register_cmd", params={"code": code}, timeout=60, bound="run-time registration at seeded code %d (R bit, hop-by-hop id symbolic)" % code))
+    out.append(dict(id="append_after_decode", fn="append_after_decode", params={"code": 0xf0000100 + rnd.randrange(1 << 24)}, timeout=200,
+                    bound="one AVP (seeded code >= 0xf0000100, symbolic M bit and 4 payload bytes) appended with append_avp / the avps setter to a decoded DWR: command without python class, registered command decoded with plain_msg, typed class"))
+    for i in range(2 if q else 6):
+        out.append(dict(id="register_avp_late/%d" % i, fn="register_avp_late", params={"code": 0xf1000000 + rnd.randrange(1 << 20) * 8 + i}, timeout=120,
+                        bound="a Grouped AVP definition (seeded code, vendor 0 or 99) registered - or replacing an earlier one - after a message carrying it was decoded and searched (native run: memoisation stays switched on)"))
     for k in (0, 1, 2, 3):
         for (l1, l2) in (lens if k else lens[:1]):
             for hv in ((0, 1) if k >= 1 else (0,)):
